@@ -106,8 +106,12 @@ def lp_case(cs, ctx, profile, probe_rate=0.0, probe_cap=64, _confirm=False):
         d = sp.make_opts(rng, spec, twopl=opts['twopl'] if rng.random() < 0.7 else None)
         decoy_argv = ['-na', str(spec['na'])] + sp.opts_to_argv(d, rng)
         ctx.cnt('runs_with_a_second_live_solver_object')
+    verbose_first = (not _confirm) and rng.random() < 0.04
+    if verbose_first:
+        ctx.cnt('first_solve_with_msg_true_then_resolve')
     ex = en.run_lp(spec, opts, ctx.workdir, rng, inject=profile.get('inject', True), decoy_argv=decoy_argv,
-                   cbc_options=['preprocess off'] if _confirm else None)
+                   cbc_options=['preprocess off'] if _confirm else None,
+                   solve_kwargs={'msg': True} if verbose_first else None)
     do_probe = ref['enumerable'] and rng.random() < probe_rate
     cnt = {}
     findings, facts = en.judge_lp(ex, ref, probe_cap=probe_cap if do_probe else 0,
@@ -140,7 +144,7 @@ def lp_case(cs, ctx, profile, probe_rate=0.0, probe_cap=64, _confirm=False):
     for f in findings:
         ctx.finding(f, case)
     # second solve() on the same Solver object: every output oracle must hold again
-    if (profile.get('resolve_rate', 0.05) and rng.random() < profile.get('resolve_rate', 0.05) and ex['solver'] is not None
+    if (profile.get('resolve_rate', 0.05) and (verbose_first or rng.random() < profile.get('resolve_rate', 0.05)) and ex['solver'] is not None
             and ex['exc'] is None and not facts.get('backend_fault')):
         from ..taps import TAP
         s = ex['solver']
